@@ -5,7 +5,7 @@ CONSTANTS
   Kind = "nameaddr"
   Atoms <- AtomsExp
   Prefix <- PfxExp
-  MaxLen = 16
+  MaxLen = 17
   Cfgs <- CfgsNA8
   Junk = 34
   EmitOn = TRUE
